@@ -41,8 +41,16 @@ def _atoms(test, pos):
     elif isinstance(test, ast.BoolOp):
         for v in test.values:
             yield from _atoms(v, pos)
+    elif _bitbool(test):
+        # `(a < b) & (c < d)`: `&` / `|` between comparisons act as and / or
+        yield from _atoms(test.left, pos)
+        yield from _atoms(test.right, pos)
     else:
         yield test, pos
+
+
+def _bitbool(t) -> bool:
+    return isinstance(t, ast.BinOp) and isinstance(t.op, (ast.BitAnd, ast.BitOr)) and all(isinstance(x, (ast.Compare, ast.BoolOp, ast.UnaryOp)) or _bitbool(x) for x in (t.left, t.right))
 
 
 def _implied_branch(test, atom, want_true: bool) -> Optional[str]:
@@ -54,14 +62,16 @@ def _implied_branch(test, atom, want_true: bool) -> Optional[str]:
             return branch
         if isinstance(t, ast.UnaryOp) and isinstance(t.op, ast.Not):
             return val(t.operand, not branch)
-        if isinstance(t, ast.BoolOp):
-            if isinstance(t.op, ast.And) and branch:
-                for x in t.values:
+        if isinstance(t, ast.BoolOp) or _bitbool(t):
+            is_and = isinstance(t.op, (ast.And, ast.BitAnd))
+            values = t.values if isinstance(t, ast.BoolOp) else [t.left, t.right]
+            if is_and and branch:
+                for x in values:
                     r = val(x, True)
                     if r is not None:
                         return r
-            if isinstance(t.op, ast.Or) and not branch:
-                for x in t.values:
+            if not is_and and not branch:
+                for x in values:
                     r = val(x, False)
                     if r is not None:
                         return r
